@@ -13,7 +13,10 @@ let flag s = s = "1"
 let () =
   if Array.length Sys.argv < 3 then begin
     prerr_endline "usage: drv cases.txt <actions>"; exit 2 end;
-  let acts = List.map action_of (List.filter (fun x -> x <> "") (String.split_on_char ',' Sys.argv.(2))) in
+  (* UNREADABLE: the extractor could not read the launcher's shape: there is no action list to run the model on,
+     only the specification is judged *)
+  let unreadable = Sys.argv.(2) = "UNREADABLE" in
+  let acts = if unreadable then [] else List.map action_of (List.filter (fun x -> x <> "") (String.split_on_char ',' Sys.argv.(2))) in
   let cases = ref 0 and specfail = ref 0 and mismatch = ref 0 in
   iter_lines Sys.argv.(1) (fun line ->
     match split_ws line with
@@ -22,7 +25,8 @@ let () =
         let o = { o_class = class_of cls; o_pid_matches = flag pm; o_marker_at_return = flag mk;
                   o_alive = flag al; o_reparented = flag rp; o_launcher_gone = flag lg;
                   o_done_at_return = flag dr; o_done_nil = flag dn; o_right_handler = flag rh; o_survived = flag sv } in
-        let v = check_case acts (n_of_int (int_of_string d)) (n_of_int (int_of_string p)) o in
+        let v0 = check_case acts (n_of_int (int_of_string d)) (n_of_int (int_of_string p)) o in
+        let v = if unreadable then { v0 with v_model = true } else v0 in
         if not v.v_spec then begin
           incr specfail; Printf.printf "SPECFAIL %s\n" line end
         else if not v.v_model then begin
